@@ -435,8 +435,21 @@ func oblCounts(o *Oblig, prop string) bool {
 	if o.Label != "" {
 		if i := strings.Index(o.Label, "."); i > 0 {
 			p := o.Label[:i]
-			if len(p) == 3 && p[0] == 'C' {
-				return p == prop
+			// "[C01+C02.nonce.counter]": the clause counts for each of the listed properties
+			if len(p) >= 3 && p[0] == 'C' {
+				all := true
+				hit := false
+				for _, q := range strings.Split(p, "+") {
+					if len(q) != 3 || q[0] != 'C' {
+						all = false
+					}
+					if q == prop {
+						hit = true
+					}
+				}
+				if all {
+					return hit
+				}
 			}
 		}
 	}
